@@ -7,8 +7,15 @@ QUICK = [
     ("bc-mm-escaped", ["req=0:31feb50901a9", "req=1:3103b5090100", "submit=1", "qq=", "nn=1", "snn=0", "echofaults=0"]),
     ("enh-ms", ["enhanced=1", "req=0:3115b5090142", "submit=1", "qq=", "nn=1", "snn=1", "echofaults=0"]),
 ]
-THOROUGH = QUICK
+THOROUGH = QUICK + [
+    ("ms-2esc-nn", ["req=0:3115b50902a9aa", "submit=1", "qq=", "nn=0", "snn=2", "data=42,a9,aa"]),
+    ("enh-2esc", ["enhanced=1", "req=0:3115b50902a9aa", "submit=1", "qq=", "nn=0", "snn=1", "data=42,a9"]),
+    ("buslost-retries", ["req=0:3115b5090100", "submit=1", "qq=03", "zz=fe", "nn=0", "snn=0", "buslost=2", "win=03,11", "echofaults=0"]),
+]
 
 
 def run(ctx):
-    pc.run_configs(ctx, "C02", "s", THOROUGH if ctx.thorough else QUICK)
+    n = 400000 if ctx.thorough else 40000
+    rnd = [("rnd-plain", n, ["req=0:3115b50900", "req=0:3115b50900", "buslost=2"]),
+           ("rnd-enh", n, ["enhanced=1", "req=0:3115b50900", "req=0:3115b50900", "buslost=2"])]
+    pc.run_configs(ctx, "C02", "s", THOROUGH if ctx.thorough else QUICK, random_runs=rnd)
